@@ -191,6 +191,7 @@ func newNetFixture(so srvOpts, co cliOpts, poll bool, workers int) *netFixture {
 	})
 	vs.Quiesce()
 	f.conn, f.dialErr = rpc.DialWithOptions("srv", so.options(f.n, co.bufSize))
+	applySeqBase(f.conn)
 	if f.dialErr != nil {
 		vs.Fatal("fixture dial failed: " + f.dialErr.Error())
 	}
